@@ -90,6 +90,28 @@ def main():
     tryit("steps", lambda: ta.get_profiler_steps())
     tryit("kernel_breakdown", lambda: [df.sort_values(list(df.columns[:2])).to_dict("records") for df in
                                        ta.get_gpu_kernel_breakdown(visualize=False, num_kernels=3)])
+    # ranks added to ONE Trace object step by step: ids assigned in an earlier step must not move, every rank must still decode
+    def incremental():
+        t2 = tr.Trace(trace_files=files, trace_dir=d)
+        rk = sorted(files)
+        t2.parse_single_rank(rk[0])
+        snap = list(t2.symbol_table.get_sym_table())
+        steps_ok = True
+        if len(rk) > 1:
+            t2.parse_multiple_ranks(rk[1:2], use_multiprocessing=False)
+            steps_ok = steps_ok and list(t2.symbol_table.get_sym_table())[:len(snap)] == snap
+            snap = list(t2.symbol_table.get_sym_table())
+        if len(rk) > 2:
+            t2.parse_multiple_ranks(rk[2:], use_multiprocessing=use_mp)
+            steps_ok = steps_ok and list(t2.symbol_table.get_sym_table())[:len(snap)] == snap
+        sy = t2.symbol_table.get_sym_table()
+        rows = {}
+        for r in rk:
+            df = t2.traces[r]
+            rows[r] = sorted([int(a), sy[int(b)] if 0 <= int(b) < len(sy) else "<id out of range>", sy[int(c)] if 0 <= int(c) < len(sy) else "<id out of range>"]
+                             for a, b, c in zip(df["index"], df["name"], df["cat"]))
+        return {"ids_stable": steps_ok, "rows": rows}
+    tryit("incremental", incremental)
     print("META_RESULT " + json.dumps(out, sort_keys=True))
 
 
